@@ -11,6 +11,8 @@ use crate::util::{ncpu, Report, Tier};
 use crate::world::{sig_bytes, sig_from_bytes, World};
 use consensus::verif::ConsensusMessage;
 use consensus::{Block, QC, TC};
+use ed25519_dalek::{Digest as _, Sha512};
+use std::convert::TryInto as _;
 use crypto::{Digest, Hash as _, PublicKey, Signature};
 use serde_json::json;
 use std::collections::{BTreeMap, BTreeSet, HashSet};
@@ -28,6 +30,7 @@ struct Pools {
     digests: Vec<Digest>,
     members: Vec<PublicKey>,
     outsider: PublicKey,
+    outsider_sk: crypto::SecretKey,
     qcs: Vec<QC>,
     tcs: Vec<TC>,
     /// index of a listed member with stake 0 (no voting rights), if the committee has one
@@ -68,6 +71,14 @@ fn mutate_qc(qc: &QC, w: &World, p: &Pools) -> Vec<(String, QC)> {
     let mut q = qc.clone();
     q.votes[0].0 = *p.members.iter().find(|m| !qc.votes.iter().any(|(k, _)| k == *m)).unwrap_or(&p.outsider);
     out.push(("QC signer name replaced by another member (signature kept)".into(), q));
+    // entries AFTER a full quorum of genuine ones
+    let mut q = qc.clone();
+    q.votes.push(qc.votes[0].clone());
+    out.push(("QC with a repeated signer appended after the quorum".into(), q));
+    let mut q = qc.clone();
+    let vd = QC { hash: qc.hash.clone(), round: qc.round, votes: Vec::new() }.digest();
+    q.votes.push((p.outsider, Signature::new(&vd, &p.outsider_sk)));
+    out.push(("QC with a correctly self-signed non-member appended after the quorum".into(), q));
     let _ = w;
     out
 }
@@ -104,6 +115,19 @@ fn mutate_tc(tc: &TC, p: &Pools) -> Vec<(String, TC)> {
         out.push((format!("TC signature replaced by {}", name), t));
     }
     out.push(("TC without signers".into(), TC { round: tc.round, votes: vec![] }));
+    // entries AFTER a full quorum of genuine ones
+    let mut t = tc.clone();
+    t.votes.push(tc.votes[0].clone());
+    out.push(("TC with a repeated signer appended after the quorum".into(), t));
+    for claim in [0u64, 1_000] {
+        let mut t = tc.clone();
+        let mut hasher = Sha512::new();
+        hasher.update(tc.round.to_le_bytes());
+        hasher.update(claim.to_le_bytes());
+        let d = Digest(hasher.finalize().as_slice()[..32].try_into().unwrap());
+        t.votes.push((p.outsider, Signature::new(&d, &p.outsider_sk), claim));
+        out.push((format!("TC with a correctly self-signed non-member (claiming QC round {}) appended after the quorum", claim), t));
+    }
     out
 }
 
@@ -320,12 +344,13 @@ pub fn run_node(rep: &mut Report, tier: Tier, stakes: &[u32], node: usize, max_r
         }
     }
     sigs.push(("an all-zero signature".into(), Signature::default()));
-    let outsider = crate::world::keys(7).into_iter().map(|k| k.0).find(|k| w.index_of(k).is_none()).unwrap();
+    let (outsider, outsider_sk) = crate::world::keys(7).into_iter().find(|k| w.index_of(&k.0).is_none()).unwrap();
     let pools = Pools {
         sigs,
         digests: blocks.iter().map(|b| b.digest()).take(3).collect(),
         members: (0..w.n()).map(|i| w.name(i)).collect(),
         outsider,
+        outsider_sk,
         qcs: blocks.iter().take(2).map(|b| w.qc(b, &others)).collect(),
         zero: (0..w.n()).find(|i| w.stakes[*i] == 0),
         tcs: vec![w.tc(1, &others.iter().map(|o| (*o, 0)).collect::<Vec<_>>()), w.tc(3, &others.iter().map(|o| (*o, 0)).collect::<Vec<_>>())],
